@@ -44,6 +44,11 @@ def check(model: Model, rep: Report, tier: str):
     with rep.isolated():
         a11(model, rep, "C07.A11")
     from .c08 import s2
+    from .c06 import u1 as _u1
+    with rep.isolated():
+        share_rule(rep, model, _u1, "C07.A14", "after unrolling, the measurements of a block repeated n times (at any nesting depth) are listed n times: apply_modifiers_to_self "
+                   "reaches every repeated block, also the fresh copies that unrolling an outer block creates (= C06.U1); a block left rolled is counted once while the "
+                   "record holds n entries")
     with rep.isolated():
         share_rule(rep, model, s2, "C07.A12", "circuit-level index i is position i of the exported Stim measurement record: the exporter walks the nodes in listing order, the same "
                    "order the registry counts in (= C08.S2)")
